@@ -5,6 +5,7 @@ import (
 	"fmt"
 	"io"
 	"math/big"
+	"sort"
 
 	"github.com/lianxiangcloud/linkchain/libs/common"
 	"github.com/lianxiangcloud/linkchain/libs/crypto"
@@ -166,8 +167,39 @@ func (e *Env) SpendFeeGas(amount *big.Int) uint64 {
 // `toWallet` (may be nil) receives `utxoAmount`; the claimed source amount is
 // `claimed` (= the coin's amount for an honest spend).
 func Spend(c *Coin, claimed *big.Int, toAccount *common.Address, accAmount *big.Int, toWallet *Wallet, utxoAmount *big.Int) (*types.UTXOTransaction, []*Coin, error) {
-	src := []*types.UTXOSourceEntry{{Ring: []types.UTXORingEntry{{Index: c.Global, OTAddr: c.OTAddr, Commit: c.Commit}},
-		RingIndex: 0, RKey: c.RKey, OutIndex: c.OutIndex, Amount: claimed, Mask: c.Mask}}
+	return SpendRing(c, nil, claimed, toAccount, accAmount, toWallet, utxoAmount)
+}
+
+// Decoys returns up to n ring members other than the coin itself, taken from the
+// committed output store (global index order).
+func (e *Env) Decoys(c *Coin, n int) []types.UTXORingEntry {
+	var out []types.UTXORingEntry
+	max := e.US.GetMaxUtxoOutputSeq(c.Token)
+	for s := int64(0); s <= max && len(out) < n; s++ {
+		if uint64(s) == c.Global {
+			continue
+		}
+		o, err := e.US.GetUtxoOutputs([]uint64{uint64(s)}, c.Token)
+		if err != nil || len(o) == 0 {
+			continue
+		}
+		out = append(out, types.UTXORingEntry{Index: uint64(s), OTAddr: lkt.Key(o[0].OTAddr), Commit: o[0].Commit})
+	}
+	return out
+}
+
+// SpendRing is Spend with decoy ring members (ring size 1 + len(decoys); MLSAG path when > 1).
+func SpendRing(c *Coin, decoys []types.UTXORingEntry, claimed *big.Int, toAccount *common.Address, accAmount *big.Int, toWallet *Wallet, utxoAmount *big.Int) (*types.UTXOTransaction, []*Coin, error) {
+	ring := append([]types.UTXORingEntry{}, decoys...)
+	ring = append(ring, types.UTXORingEntry{Index: c.Global, OTAddr: c.OTAddr, Commit: c.Commit})
+	sort.Slice(ring, func(i, j int) bool { return ring[i].Index < ring[j].Index })
+	real := 0
+	for i, r := range ring {
+		if r.Index == c.Global {
+			real = i
+		}
+	}
+	src := []*types.UTXOSourceEntry{{Ring: ring, RingIndex: uint64(real), RKey: c.RKey, OutIndex: c.OutIndex, Amount: claimed, Mask: c.Mask}}
 	var dests []types.DestEntry
 	if toAccount != nil {
 		dests = append(dests, &types.AccountDestEntry{To: *toAccount, Amount: accAmount})
